@@ -164,6 +164,11 @@ class C13(Base):
             yield "unesc " + hx(self.gen_soup(rng, 12))
         for _ in range(3000 if quick else 100000):
             yield "unesc " + hx(self.gen_wellformed(rng, 10))
+        # MANY escapes in one string (more than a small buffer of decoded characters or positions holds)
+        for _ in range(150 if quick else 5000):
+            yield "unesc " + hx(self.gen_wellformed(rng, rng.choice([20, 40, 80, 150])))
+        for _ in range(50 if quick else 2000):
+            yield "unesc " + hx("".join(self.gen_escape(rng) for _ in range(rng.choice([9, 16, 17, 33, 64, 65, 130]))))
         # long runs without escapes, and long runs around a few escapes
         for _ in range(20 if quick else 200):
             n = rng.choice([100, 1000, 20000])
